@@ -495,6 +495,28 @@ def m_opt_unwrap_or(ex, m, args):
     return vite(o.is_("Some"), p, args[1])
 
 
+# ---- Range<int> iteration (loops are unrolled by the executor) -----------------------------------------------
+@model(rf"<Range<({INT})> as IntoIterator>::into_iter", "core: IntoIterator for Range is the identity")
+def m_range_into_iter(ex, m, args):
+    return args[0]
+
+
+@model(rf"<Range<({INT})> as Iterator>::next|core::iter::range::<impl Iterator for Range<({INT})>>::next",
+       "core: Range<int>::next = if start < end { start += 1; Some(old start) } else { None }")
+def m_range_next(ex, m, args):
+    ty = m.group(1) or m.group(2)
+    r = args[0]
+    if not isinstance(r, RefMut):
+        raise Unsupported("Range::next on a non-&mut place")
+    rng = r.load(ex)
+    if not isinstance(rng, St) or len(rng.fs) != 2:
+        raise Unsupported(f"Range value expected, got {rng!r}")
+    start, end = as_int(ex, rng.fs[0], ty), as_int(ex, rng.fs[1], ty)
+    has = t_lt(start.t, end.t)
+    r.store(ex, St(rng.name, [I(t_ite(has, t_add(start.t, 1), start.t), ty), end]))
+    return mk_option(has, start)
+
+
 # ---- ruint ---------------------------------------------------------------------------------------------
 @model(rf"ruint::from::<impl ({UINT})>::from::<({INT})>",
        "ruint: Uint::from(primitive unsigned) is value preserving (panics if the value does not fit)")
